@@ -3,6 +3,7 @@
 package main
 
 import (
+	"bytes"
 	"github.com/edutko/decipher/internal/file"
 
 	stdelliptic "crypto/elliptic"
@@ -274,6 +275,33 @@ func genC16(tier string, r *rng) {
 			func(p *asn1struct.ECParameters) { p.FieldId.FieldType = oid.CharacteristicTwoField },
 			func(p *asn1struct.ECParameters) { p.Curve.Seed = asn1.BitString{Bytes: o.seed, BitLength: 160} },
 			func(p *asn1struct.ECParameters) { p.Curve.Seed = asn1.BitString{Bytes: c.seed[:19], BitLength: 152} },
+		}
+		// the field prime as another ELEMENT with the same magnitude: leading zero octet dropped (a negative number) or doubled
+		// (not DER), and the content octets under every other identifier octet (BIT STRING, OCTET STRING, OID, ENUMERATED,
+		// constructed, other classes): the INTEGER p is what the curve is defined over, nothing else
+		primeDER, _ := asn1.Marshal(c.p)
+		hl := len(primeDER) - len(c.p.Bytes()) // header, plus the sign octet where the top bit of p is set
+		if primeDER[hl-1] != 0 {
+			hl = len(primeDER) - len(c.p.Bytes())
+		}
+		content := primeDER[len(primeDER)-len(c.p.Bytes()):]
+		tlv := func(tag byte, body []byte) []byte {
+			if len(body) < 128 {
+				return append([]byte{tag, byte(len(body))}, body...)
+			}
+			return append([]byte{tag, 0x81, byte(len(body))}, body...)
+		}
+		var primeAlts [][]byte
+		primeAlts = append(primeAlts, tlv(2, content), tlv(2, append([]byte{0, 0}, content...)), tlv(2, append([]byte{0}, content...)))
+		for _, tag := range []byte{0x03, 0x04, 0x06, 0x0A, 0x12, 0x22, 0x42, 0x82, 0x0C, 0x30} {
+			primeAlts = append(primeAlts, tlv(tag, content), tlv(tag, append([]byte{0}, content...)))
+		}
+		for _, alt := range primeAlts {
+			if bytes.Equal(alt, primeDER) {
+				continue
+			}
+			alt := alt
+			muts = append(muts, func(p *asn1struct.ECParameters) { p.FieldId.Parameters = asn1.RawValue{FullBytes: alt} })
 		}
 		for _, m := range muts {
 			for _, base := range [][]byte{unc, cmpGood} {
